@@ -7,6 +7,7 @@ CONSTANTS
   SyncModes = {FALSE, TRUE}
   MaxBars = 2
   MaxTrig = 1
+  GuardValues = {}
 INVARIANTS
   PropInv
   ImplInv
